@@ -61,6 +61,8 @@ def plan(tier, seed):
              for c in CERT_ISSUER]
     items.append({"kind": "ws_plain", "exhaustive": "ws:// never wrapped, for every sslopt combination"})
     items.append({"kind": "sslver", "exhaustive": "ssl_version {PROTOCOL_TLS, TLSv1_2, TLS_CLIENT} x certificate x name x cert_reqs x check_hostname x anchors"})
+    items.append({"kind": "sysstore", "exhaustive": "system trust store holding the sim CA x certificate x name x cert_reqs x check_hostname x {no anchor option, foreign CA file}"})
+    items.append({"kind": "concurrent_pairs", "exhaustive": None})
     items.append({"kind": "pairs", "exhaustive": "every relaxing option used on a first connection, then a default connection to every certificate/name in the same process"})
     n = 3000 if tier == "quick" else 40000
     per = 150 if tier == "quick" else 1000
@@ -88,6 +90,24 @@ def expand(item, seed):
             if proxy and (host not in ("good.sim.test", "other.sim.test") or ea != "none"):
                 continue
             yield _sc(cert=cert, cert_reqs=cr, check_hostname=ch, opt_anchor=oa, env_anchor=ea, host=host, proxy=proxy)
+    elif k == "concurrent_pairs":
+        # a connection with default options next to one that relaxes a check, made at the same time by two threads
+        relaxed = [dict(check_hostname=False), dict(cert_reqs="NONE"), dict(check_hostname=False, opt_anchor="ca_file"),
+                   dict(server_hostname="good.sim.test")]
+        victims = [dict(host="other.sim.test", cert="good"), dict(host="other.sim.test", cert="foreign-good"),
+                   dict(host="a.wild.sim.test", cert="good"), dict(host="other.sim.test", cert="wild")]
+        for rx in relaxed:
+            for vc in victims:
+                for store in ("sim_ca", None):
+                    for sd in range(6):
+                        for pol in ({"kind": "prob", "p_line": 1 / 8, "p_call": 0.3}, {"kind": "pct", "d": 2, "len": 2500}):
+                            yield {"concurrent": [_sc(sys_store=store, **vc), _sc(host="good.sim.test", cert="good", sys_store=store, **rx)],
+                                   "policy": pol, "seed": 100 + sd}
+    elif k == "sysstore":
+        for cert in CERT_ISSUER:
+            for host in HOSTS:
+                for cr, ch, oa in itertools.product((None, "NONE", "REQUIRED"), (None, True, False), ("none", "foreign_file")):
+                    yield _sc(cert=cert, host=host, cert_reqs=cr, check_hostname=ch, opt_anchor=oa, sys_store="sim_ca")
     elif k == "sslver":
         for ver in ("TLS", "TLSv1_2", "TLS_CLIENT"):
             for cert in CERT_ISSUER:
@@ -124,6 +144,8 @@ def _gen_single(rng):
         sc["context"] = rng.choice(("default_ca", "default_sys", "noverify", "nohost_ca"))
     elif rng.random() < 0.3:
         sc["ssl_version"] = rng.choice(("TLS", "TLSv1_2", "TLS_CLIENT"))
+    if rng.random() < 0.3:
+        sc["sys_store"] = "sim_ca"
     return sc
 
 
@@ -135,9 +157,10 @@ def gen(rng):
     if rng.random() < 0.12:
         hosts = rng.sample(["good.sim.test", "other.sim.test", "a.wild.sim.test"], 2)
         steps = []
+        store = rng.choice((None, "sim_ca", "sim_ca"))
         for h in hosts:
             steps.append(_sc(host=h, cert=rng.choice(("good", "foreign-good", "wild")), cert_reqs=rng.choice((None, None, "NONE")),
-                             check_hostname=rng.choice((None, None, False)), opt_anchor=rng.choice(("none", "ca_file", "ca_file"))))
+                             check_hostname=rng.choice((None, None, False)), opt_anchor=rng.choice(("none", "none", "ca_file")), sys_store=store))
         return {"concurrent": steps, "policy": rng.choice(({"kind": "prob", "p_line": 1 / 8, "p_call": 0.3}, {"kind": "prob", "p_line": 1 / 64, "p_call": 0.3},
                                                           {"kind": "pct", "d": 2, "len": 3000}, {"kind": "coop", "p_call": 0.3})),
                 "seed": rng.randrange(1 << 30)}
@@ -152,6 +175,8 @@ def gen(rng):
         if rng.random() < 0.4 and (first["opt_anchor"] == "none" or ANCHORS[first["opt_anchor"]][0] == "file"):
             first["env_anchor"] = "ca_file"
     steps = [first] + [_gen_single(rng) for _ in range(rng.randrange(1, 3))]
+    for st in steps:
+        st["sys_store"] = first.get("sys_store")
     for st in steps[1:]:
         st["scheme"] = "wss"
         if rng.random() < 0.6:
@@ -225,7 +250,7 @@ def _expect(sc):
     match = (ch is not False) and verify if ch is None else bool(ch)
     if cr == "NONE" and ch is None:
         match = False
-    anchors = {ANCHORS[oa][2]} if oa != "none" else set()
+    anchors = {ANCHORS[oa][2]} if oa != "none" else ({"ca"} if sc.get("sys_store") == "sim_ca" else set())
     name = sc.get("server_hostname") or sc["host"]
     trusted = CERT_ISSUER[sc["cert"]] in anchors
     fits = name_fits(sc["cert"], name)
@@ -245,7 +270,12 @@ def _run_concurrent(sc, choices):
                 or st["host"] not in HOSTS or st["cert"] not in CERT_ISSUER or st.get("ssl_version"):
             raise InvalidScenario("concurrent steps: plain wss, options only")
     policy = dict(sc.get("policy") or {"kind": "prob", "p_line": 1 / 8, "p_call": 0.3})
-    w = World(seed=int(sc.get("seed", 1)), step_cap=900_000, policy=policy, choices=choices)
+    env = {}
+    if any(st.get("sys_store") == "sim_ca" for st in steps):
+        if not all(st.get("sys_store") == "sim_ca" for st in steps):
+            raise InvalidScenario("one process has one system trust store")
+        env["SSL_CERT_FILE"] = simtls.cert("ca.pem")  # the process-wide 'system' trust store holds the sim CA
+    w = World(seed=int(sc.get("seed", 1)), step_cap=900_000, policy=policy, choices=choices, env=env)
     tps = {}
     for i, st in enumerate(steps):
         def origin(conn, i=i, st=st):
@@ -359,11 +389,17 @@ def _run_one(sc, shared, index=0):
     env = {}
     if ea != "none":
         env["WEBSOCKET_CLIENT_CA_BUNDLE"] = simtls.cert(ANCHORS[ea][1])
+    sys_store = sc.get("sys_store")
+    if sys_store not in (None, "sim_ca"):
+        raise InvalidScenario("sys_store")
+    if sys_store == "sim_ca":
+        env["SSL_CERT_FILE"] = simtls.cert("ca.pem")
     import os
     own = shared is None
     w = World(seed=int(sc.get("seed", 1)), step_cap=500_000, env=env) if own else shared
     if not own:
         os.environ.pop("WEBSOCKET_CLIENT_CA_BUNDLE", None)
+        os.environ.pop("SSL_CERT_FILE", None)
         for k_, v_ in env.items():
             os.environ[k_] = v_
         w.net.listeners.clear()
@@ -461,7 +497,7 @@ def _run_one(sc, shared, index=0):
         res.nontrivial = False
         return res
     if ctxkind:
-        verify, match, anchors = cverify, cmatch, ({canchor} if canchor else set())
+        verify, match, anchors = cverify, cmatch, ({canchor} if canchor else set())  # a custom context is used as it is
     else:
         verify = cr != "NONE"
         match = (ch is not False) and verify if ch is None else bool(ch)
@@ -472,6 +508,8 @@ def _run_one(sc, shared, index=0):
             anchors.add(ANCHORS[oa][2])
         elif ea != "none":
             anchors.add(ANCHORS[ea][2])
+        elif sys_store == "sim_ca":
+            anchors.add("ca")  # nothing configured: the (simulated) system store decides
     contradictory = (not ctxkind) and cr == "NONE" and ch is True
     name = sh or host
     trusted = CERT_ISSUER[cert] in anchors
@@ -517,7 +555,7 @@ def _run_one(sc, shared, index=0):
                         f"context verify_mode={wc['verify_mode']} check_hostname={wc['check_hostname']}, options say verify={verify} match={match}")
         if wc["server_hostname"] != name:
             res.violate("wrong_server_name", ctx, f"server_hostname {wc['server_hostname']!r}, expected {name!r}")
-    res.sig = repr((cr, ch, oa, ea, ctxkind, sh is not None, cert, host, proxy, sslver))
+    res.sig = repr((cr, ch, oa, ea, ctxkind, sh is not None, cert, host, proxy, sslver, sys_store))
     res.nontrivial = True
     res.probes["cell_" + cell] = 1
     if not want_ok and outcome[0] == "exc":
@@ -537,4 +575,4 @@ def sample_view(sc, r):
     if sc.get("steps"):
         return {"successive_connections_in_one_process": [sample_view(st, r) for st in sc["steps"]]}
     return {k: sc.get(k) for k in ("scheme", "host", "cert", "cert_reqs", "check_hostname", "opt_anchor", "env_anchor",
-                                   "context", "server_hostname", "proxy", "ssl_version")}
+                                   "context", "server_hostname", "proxy", "ssl_version", "sys_store")}
